@@ -189,6 +189,7 @@ func realTransportSwaps(ctx context.Context, checkLen bool, stats map[string]int
 			peer.got = nil
 			var execErr error
 			panicked := ""
+			noteRequest("execute over the real gRPC sender, threshold %d, the peer's contribution reply: %s", thr, k.Name)
 			func() {
 				defer func() {
 					if x := recover(); x != nil {
@@ -198,6 +199,7 @@ func realTransportSwaps(ctx context.Context, checkLen bool, stats map[string]int
 				}()
 				execErr = node.Process.OnExecute(ctx, 2, acct)
 			}()
+			requestDone()
 			n++
 			stats["real-transport."+k.Name]++
 			what := fmt.Sprintf("execute over the real gRPC sender, threshold %d, the peer's contribution reply: %s", thr, k.Name)
@@ -235,6 +237,7 @@ func realTransportSwaps(ctx context.Context, checkLen bool, stats map[string]int
 	}
 	for i := 0; i <= rounds; i++ {
 		acct := fmt.Sprintf("Wallet 3/rep%d", i)
+		noteRequest("generation number %d in a row over the real gRPC sender whose peer refuses the contribution (prepare, execute, abort)", i+1)
 		done := make(chan error, 1)
 		go func() {
 			if err := node.Process.OnPrepare(ctx, 2, acct, []byte("pass"), 2, eps); err != nil {
@@ -246,6 +249,7 @@ func realTransportSwaps(ctx context.Context, checkLen bool, stats map[string]int
 		}()
 		select {
 		case <-done:
+			requestDone()
 			stats["real-transport.repeated-failures"]++
 		case <-time.After(20 * time.Second):
 			fails = append(fails, fmt.Sprintf("after %d failed swaps over the real gRPC sender the next generation was never answered (20 s): the instance stopped serving key-generation requests", i))
